@@ -315,7 +315,13 @@ func genStateful() *rapid.Generator[*ast.Node] {
 	name := rapid.Custom(func(t *rapid.T) *ast.Node { return ast.NameN(rapid.SampledFrom(gen.Names).Draw(t, "n")) })
 	ctxFns := []string{"string", "length", "uppercase", "lowercase", "trim", "number", "abs", "boolean", "keys", "type", "spread"}
 	return rapid.Custom(func(t *rapid.T) *ast.Node {
-		switch rapid.IntRange(0, 28).Draw(t, "shape") {
+		switch rapid.IntRange(0, 30).Draw(t, "shape") {
+		case 27: // time parsing/formatting with and without a picture (a twin from the same family joins the pool)
+			return c05TimeFamily(t)
+		case 28: // a concatenation chain whose last operand fails on the inputs that lack a member, after the first operands were rendered
+			n := name.Draw(t, "member")
+			return ast.BinN("&", ast.BinN("&", ast.BinN("&", ast.StrN("id-"), ast.CallN("string", ast.CallN("exists", n))), ast.StrN("-")),
+				ast.BlockN(ast.N(ast.Cond, ast.CallN("exists", n.Clone()), ast.StrN("ok"), ast.BinN("+", ast.NumN(1), ast.StrN("a")))))
 		case 24: // a constructor with a literal key next to a computed one (evaluated again and again)
 			return ast.N(ast.Obj, ast.StrN("kind"), ast.StrN("item"), ast.CallN("string", name.Draw(t, "key")), name.Draw(t, "value"))
 		case 25: // the same inside a path step (once per item)
@@ -406,6 +412,30 @@ func genStateful() *rapid.Generator[*ast.Node] {
 	})
 }
 
+// c05TimeFamily: $toMillis / $fromMillis calls on literal arguments, with a
+// picture and without one (the default layouts), on texts that only one of the
+// two readings accepts.
+func c05TimeFamily(t *rapid.T) *ast.Node {
+	pic := rapid.SampledFrom([]string{"[D01]/[M01]/[Y0001]", "[Y0001]-[M01]-[D01]T[H01]:[m01]:[s01][Z01:01]", "[Y0001][M01][D01]", "[D1] [MNn] [Y0001]"}).Draw(t, "tpic")
+	txt := rapid.SampledFrom([]string{"02/01/2018", "2018-01-02T03:04:05+01:00", "2018-01-02T03:04:05.678Z", "2018-01-02", "20180102", "2 January 2018", "2018-01-02T03:04:05-0530"}).Draw(t, "ttxt")
+	switch rapid.IntRange(0, 4).Draw(t, "tform") {
+	case 0, 1:
+		return ast.CallN("toMillis", ast.StrN(txt))
+	case 2, 3:
+		return ast.CallN("toMillis", ast.StrN(txt), ast.StrN(pic))
+	}
+	ms := rapid.SampledFrom([]float64{1514858645000, 0, 1514851200000}).Draw(t, "tms")
+	if rapid.Bool().Draw(t, "twithpic") {
+		return ast.CallN("fromMillis", ast.NumN(ms), ast.StrN(pic))
+	}
+	return ast.CallN("fromMillis", ast.NumN(ms))
+}
+
+// isTimeFamily recognises shape 27.
+func isTimeFamily(p *ast.Node) bool {
+	return p.K == ast.Call && len(p.C) >= 2 && p.C[0].K == ast.Var && (p.C[0].S == "toMillis" || p.C[0].S == "fromMillis") && (p.C[1].K == ast.Str || p.C[1].K == ast.Num)
+}
+
 // isClockDifference recognises shape 19: it reads the clock but its value, the
 // difference of two readings within one evaluation, is always 0.
 func isClockDifference(p *ast.Node) bool {
@@ -492,6 +522,18 @@ func TestC05_Histories(t *testing.T) {
 				c.Multi = append(c.Multi, false)
 				asts = append(asts, twin)
 				ne++
+			}
+			// time parsing/formatting: one or two more members of the family join
+			// the pool (a picture used by one call must not change what another reads)
+			if isTimeFamily(p) {
+				for k := 0; k < 2 && len(c.Texts) < 4; k++ {
+					twin := ast.Normalize(c05TimeFamily(rt))
+					c.Texts = append(c.Texts, ast.Print(twin))
+					c.Reg = append(c.Reg, false)
+					c.Multi = append(c.Multi, false)
+					asts = append(asts, twin)
+					ne++
+				}
 			}
 			// a built-in reached without a call expression: the pool also gets an
 			// expression that calls the same built-in through another name
